@@ -49,6 +49,13 @@ func (in *Interp) buildAll(body []*Stmt) {
 	for _, s := range body {
 		if s.K == SDraw {
 			in.gens[s.Gen] = in.buildAny(s.Gen)
+			// statements inside the functions of Custom generators anywhere in the expression (reached through the
+			// expression itself: after a round trip through JSON, Prog.Customs holds copies)
+			for gs := s.Gen; gs != nil; gs = gs.Sub {
+				if gs.Cust != nil {
+					in.buildAll(gs.Cust.Body)
+				}
+			}
 		}
 		in.buildAll(s.Body)
 		in.buildAll(s.Inv)
@@ -571,7 +578,15 @@ func (in *Interp) exec(t *rapid.T, inv *Invocation, body []*Stmt, where string, 
 		switch s.K {
 		case SDraw:
 			label := s.Label
-			v := in.gens[s.Gen](t, label)
+			fn := in.gens[s.Gen]
+			if fn == nil {
+				// a bug of this interpreter must never look like a failure of the program it runs
+				if curRC != nil {
+					curRC.V(viol("harness", "interpreter-bug", "no generator was built for the draw of v%d (%v)", s.Var, s.Gen))
+				}
+				panic("harness: interpreter bug: no generator built for a draw statement")
+			}
+			v := fn(t, label)
 			if label == "" {
 				label = fmt.Sprintf("#%d", *dc)
 			}
